@@ -260,9 +260,55 @@ type sut struct {
 	updOpts []resource.WriteOption
 }
 
-func newSUT(seed int64) *sut {
+func newSUT(seed int64) *sut { return newSUTWith(seed, initT{Active: activeA{Start: -1}}, 0) }
+
+// initT is the configuration a model is constructed with (StateFrom / WellFormedInit of Electric.tla).
+type initT struct {
+	Modes  []modeA `json:"modes"`
+	Active activeA `json:"active"`
+}
+
+func concMode(id string, normal bool, title, start int) *traits.ElectricMode {
+	m := &traits.ElectricMode{Id: id, Normal: normal, Title: concTitle(title)}
+	if start >= 0 {
+		m.StartTime = timestamppb.New(concTime(start))
+	}
+	return m
+}
+
+// newSUTWith constructs the model through the options that shape its initial state; variant picks
+// among the equivalent ways model_opts.go offers: WithInitialMode with all modes at once / one call per
+// mode (additive) / WithModeOption(resource.WithInitialRecord); WithInitialActiveMode /
+// WithActiveModeOption(resource.WithInitialValue).
+func newSUTWith(seed int64, ini initT, variant int) *sut {
 	clk := &hclock{}
-	m := electricpb.NewModel(electricpb.WithClock(clk), electricpb.WithRNG(rand.New(rand.NewSource(seed))))
+	opts := []resource.Option{electricpb.WithClock(clk), electricpb.WithRNG(rand.New(rand.NewSource(seed)))}
+	var ms []*traits.ElectricMode
+	for _, m := range ini.Modes {
+		ms = append(ms, concMode(m.ID, m.Normal, m.Title, m.Start))
+	}
+	switch {
+	case len(ms) == 0:
+	case variant%3 == 0:
+		opts = append(opts, electricpb.WithInitialMode(ms...))
+	case variant%3 == 1:
+		for _, m := range ms {
+			opts = append(opts, electricpb.WithInitialMode(m))
+		}
+	default:
+		for _, m := range ms {
+			opts = append(opts, electricpb.WithModeOption(resource.WithInitialRecord(m.Id, m)))
+		}
+	}
+	if ini.Active.ID != "" {
+		a := concMode(ini.Active.ID, ini.Active.Normal, ini.Active.Title, ini.Active.Start)
+		if variant%2 == 0 {
+			opts = append(opts, electricpb.WithInitialActiveMode(a))
+		} else {
+			opts = append(opts, electricpb.WithActiveModeOption(resource.WithInitialValue(a)))
+		}
+	}
+	m := electricpb.NewModel(opts...)
 	return &sut{m: m, srv: electricpb.NewModelServer(m), clk: clk, ids: newIDTable()}
 }
 
@@ -440,6 +486,7 @@ func (s *sut) call(api string, op opT) (err error, rid string, got retA) {
 // ---- sequential replays --------------------------------------------------------
 
 type caseT struct {
+	Init     initT `json:"init"`
 	Ops      []opT `json:"ops"`
 	LastOnly bool  `json:"lastOnly"`
 }
@@ -483,7 +530,7 @@ func runSeq() {
 func replay(out *hx.Out, n int, c caseT) {
 	{
 		for _, api := range []string{"model", "server"} {
-			s := newSUT(int64(n)*7 + hx.Seed())
+			s := newSUTWith(int64(n)*7+hx.Seed(), c.Init, n)
 			changed := false
 			for k, op := range c.Ops {
 				s.clk.Advance(op.Dt)
@@ -942,7 +989,13 @@ func runConc() {
 		g := 2 + top.Intn(3)
 		viaServer := run%2 == 0
 		hx.Current(map[string]any{"part": "conc", "run": run, "goroutines": g, "viaServer": viaServer})
-		s := newSUT(int64(run)*13 + hx.Seed())
+		// two runs in five start from a constructed model: a (normal) and b, a the active mode
+		ini := initT{Active: activeA{Start: -1}}
+		if run%5 < 2 {
+			ini = initT{Modes: []modeA{{ID: "a", Normal: true, Title: 1, Start: -1}, {ID: "b", Title: 2, Start: -1}},
+				Active: activeA{ID: "a", Normal: true, Title: 1, Start: -1}}
+		}
+		s := newSUTWith(int64(run)*13+hx.Seed(), ini, run)
 		s.clk.Advance(1)
 		ctx, cancel := context.WithCancel(bg)
 		mc, ac := s.subscribe(ctx, viaServer)
@@ -1002,6 +1055,9 @@ func runConc() {
 						afterSentinel = false
 						prev = cur
 					default:
+						if ak == 0 {
+							prev = cur // the seed value of the stream (the blank or the configured mode) is no switch
+						}
 						ak++
 						alines = append(alines, aeventLine{Kind: "aevent", Run: run, K: ak, Prev: prev, Cur: cur, Ct: absTime(e.Ct)})
 						prev = cur
@@ -1014,7 +1070,10 @@ func runConc() {
 			}
 		}()
 
+		// "changed": the active mode is a real mode - set by an operation, or configured at construction
+		// (that one, too, "is never deleted")
 		var changed atomic.Bool
+		changed.Store(ini.Active.ID != "")
 		var calls, okCalls atomic.Int64
 		for round := 1; round <= rounds; round++ {
 			var wg sync.WaitGroup
